@@ -216,6 +216,22 @@ theorem sign_verifies_sound (hc : CurveOK p a b) (d : Domain) (hcp : d.curve.p =
 
 /-! ### full strength: prime group order, public key not a generator object -/
 
+/-- a point of prime order `N`: `k • P = 0 ↔ N ∣ k` -/
+theorem order_exact (N : ℕ) (hNp : N.Prime) (P : (W (a : ZMod p) (b : ZMod p)).Point) (hNP : (N : ℤ) • P = 0) (hP0 : P ≠ 0) (k : ℤ) :
+    k • P = 0 ↔ (N : ℤ) ∣ k := by
+  have hdvd : addOrderOf P ∣ N := by
+    apply addOrderOf_dvd_of_nsmul_eq_zero
+    have : ((N : ℕ) : ℤ) • P = 0 := hNP
+    rwa [natCast_zsmul] at this
+  have hord : addOrderOf P = N := by
+    rcases (Nat.dvd_prime hNp).mp hdvd with h | h
+    · exact absurd (AddMonoid.addOrderOf_eq_one_iff.mp h) hP0
+    · exact h
+  rw [← hord]
+  exact (addOrderOf_dvd_iff_zsmul_eq_zero).symm
+
+
+
 theorem pow_two_smul_ne_zero (N : ℕ) (hNp : N.Prime) (hN2 : N ≠ 2) (Gp : (W (a : ZMod p) (b : ZMod p)).Point)
     (hGord : ∀ k : ℤ, k • Gp = 0 ↔ (N : ℤ) ∣ k) : ∀ j : ℕ, (2 ^ j : ℕ) • Gp ≠ 0 := by
   intro j h
